@@ -14,6 +14,7 @@ import (
 	sdk "github.com/conduitio/conduit-processor-sdk"
 	"github.com/conduitio/conduit/pkg/foundation/log"
 	"github.com/conduitio/conduit/pkg/foundation/metrics/noop"
+	"github.com/conduitio/conduit/pkg/lifecycle"
 	"github.com/conduitio/conduit/pkg/lifecycle/stream"
 
 	"verif/harness/gen"
@@ -76,6 +77,7 @@ type caseRun struct {
 	odd   string
 	hung  bool
 
+	svc       *lifecycle.Service // non-nil in component procsvc: Reconfigure goes through ReconfigureProcessor
 	node      *stream.ProcessorNode
 	in        chan *stream.Message
 	inClosed  bool
@@ -414,6 +416,10 @@ func (c *caseRun) reconfigure(r int, openOK, gated bool) {
 				rs.ret <- "?"
 			}
 		}()
+		if c.svc != nil {
+			rs.ret <- classifyReconf(c.svc.ReconfigureProcessor(context.WithValue(ctx, reqKey{}, fk), svcPipelineID, svcProcessorID))
+			return
+		}
 		rs.ret <- classifyReconf(c.node.Reconfigure(ctx, fk))
 	}()
 }
@@ -608,7 +614,11 @@ func runScript(script string) (line, res string) {
 }
 
 func runScriptOnce(script string, deadline time.Duration) (line, res string) {
-	c := newCase()
+	return runScriptOnceWith(newCase, script, deadline)
+}
+
+func runScriptOnceWith(mk func() *caseRun, script string, deadline time.Duration) (line, res string) {
+	c := mk()
 	tm := time.NewTimer(deadline)
 	defer tm.Stop()
 	c.deadline = tm.C
